@@ -224,7 +224,14 @@ func (h *handler) serve(clientCtx context.Context) error {
 			for {
 				select {
 				case args := <-h.unaryRpcChan:
-					h.writeChan <- h.processUnaryRpc(clientCtx, args.info, args.md, args.rpc)
+					resp := h.processUnaryRpc(clientCtx, args.info, args.md, args.rpc)
+					select {
+					case h.writeChan <- resp:
+					case <-h.ctx.Done():
+						// The writer has gone with the connection; nobody will take
+						// the response.
+						return
+					}
 				case <-unaryRpcCtx.Done():
 					return
 				}
